@@ -54,4 +54,24 @@ func Stats returns (err)
   ensures @reports-loss [C17] err == nil ==> (sinkFailed[out] ==> old(sinkFailed[out])) && sinkPend[out] == 0
   // C07: the two record counts printed are the numbers of headings of the log and of the book
   ensures @counts [C07] err == nil ==> prLen == old(prLen) + 8 && PrintedInt(old(prLen) + 4, 0, HeadCount(logf, RdN(logf), cc)) && PrintedInt(old(prLen) + 1, 0, HeadCount(lastOpen, RdN(lastOpen), cc))
+
+// ---------------------------------------------------------------------------------------------
+// command wiring (C16, C06, C15, C11): the Action closures hand the command exactly the loaded options - the opened
+// files in the order the command expects them (book first, log second) and every part of the configuration equal to
+// the corresponding part of the options, so the settings options.Load resolved are the ones the report runs with.
+// ---------------------------------------------------------------------------------------------
+type stats.statsCmd(logFileName, dbFileName, sc) returns (err)
+  modifies *
+  modifies ghost(cbLen, cbErr, cbNode, cbStop, cbRet, cbLineNo, cbLine, cbHeader, cbElems, cbNElems, scRd, scPos, privLo, evOf, accKey, accP, accN, accH, bufSink, bufSticky, sinkFailed, sinkPend, prLen, prSink, prArg, prArgs, csvLen, csvW, csvN, csvRow, tnodes, tdepth, tmax, tmapOf, jlen, tvLen, tv, tseg, tvSet, procLen, procTime, procSrc, lastOpen, cfgRd)
+
+func NewStatsCommand$1$1 returns (err)
+  props C16 C08
+  requires @loaded o != nil && stats != nil
+  dyncall 1 stats.statsCmd
+  modifies *
+  modifies ghost(cbLen, cbErr, cbNode, cbStop, cbRet, cbLineNo, cbLine, cbHeader, cbElems, cbNElems, scRd, scPos, privLo, evOf, accKey, accP, accN, accH, bufSink, bufSticky, sinkFailed, sinkPend, prLen, prSink, prArg, prArgs, csvLen, csvW, csvN, csvRow, tnodes, tdepth, tmax, tmapOf, jlen, tvLen, tv, tseg, tvSet, procLen, procTime, procSrc, lastOpen, cfgRd)
+  ghost before dyncall 1 {
+    assert @wiring [C16] #arg0 == o.GlobalConfig.LogFileName && #arg1 == o.GlobalConfig.DbFileName && #arg2.Now == o.GlobalConfig.Now && #arg2.ParserConfig == o.ParserConfig && #arg2.ReporterConfig == o.ReporterConfig
+  }
+
 @*/
